@@ -73,3 +73,12 @@ def c16_concatenate_empty_row(sc, rec):
     d = rec.get('detail') or {}
     return (rec.get('clause') == 'raised' and str(rec.get('key', '')).endswith(':empty-row-after-concatenation') and bool(d.get('empty_row_assertion'))
             and 'concatenate' in _steps(sc))
+
+
+def c05_dumper_casts_values(sc, rec):
+    """A file dumper placed mid-pipeline validates the rows it passes on: a float in a number field continues downstream
+    as a Decimal of the same value (the check assigns the key only when the rows are equal once floats and Decimals of
+    equal value are identified, the observer is a file dumper and the stream at its position is not already cast)."""
+    d = rec.get('detail') or {}
+    return (rec.get('clause') == 'transparency:rows' and rec.get('key') == 'dumper-casts-values' and d.get('numeric_equal') is True
+            and d.get('observer') in ('dump_to_path', 'dump_to_zip') and ((sc or {}).get('observer') or {}).get('step') == d.get('observer'))
